@@ -67,6 +67,32 @@ def build(seed):
         vobjs = [version.Version(c) for c in cands]
         add("set.filter_objs", lambda s=s, v=vobjs: [str(x) for x in specifiers.SpecifierSet(s).filter(v)], vobjs)
         add("ver.sorted", lambda v=vobjs: [str(x) for x in sorted(v)], vobjs)
+    # families of equal-but-differently-spelled inputs: anything cached or keyed by equality instead of by the
+    # actual argument shows up as a history-dependent answer when the call order is shuffled
+    fams = [["1", "1.0", "1.0.0", "01.00"], ["2.0", "2", "2.0.0.0"], ["1.0a1", "1.0.0-alpha.1", "1a1"], ["1!3.0+ab.1", "1!3+AB-1", "1!3.0.0+ab_01"]]
+    for fam in fams:
+        for x in fam:
+            add("fam.canon", lambda x=x: [utils.canonicalize_version(x), utils.canonicalize_version(x, strip_trailing_zero=False),
+                                          utils.canonicalize_version(version.Version(x), strip_trailing_zero=False)])
+            add("fam.ver", lambda x=x: (lambda v: [str(v), v.public, v.base_version, v.release, v.local, hash(v) == hash(version.Version(x))])(version.Version(x)))
+            for op in ("==", "!=", "~=", ">=", "<", "==="):
+                if op == "~=" and "." not in x:
+                    continue
+                cl = op + x.split("+")[0] if op in ("~=", ">=", "<") else op + x
+                add("fam.spec", lambda cl=cl, fam=fam: (lambda sp: [str(sp), sp.version, [sp.contains(c, prereleases=True) for c in fam + ["1.5", "2.1", "1.0.5"]],
+                                                                     list(sp.filter(fam + ["1.5", "2.1"]))])(specifiers.Specifier(cl)))
+            if "+" not in x and "a" not in x:
+                add("fam.prefix", lambda x=x, fam=fam: (lambda sp: [str(sp), [sp.contains(c) for c in fam + ["1.5", "2.1", "1.0.5", "2.0.3"]],
+                                                                   list(sp.filter(["2.1", "1.5"] + list(reversed(fam))))])(specifiers.SpecifierSet("==" + x + ".*")))
+    for fam in [["Foo_Bar", "foo-bar", "FOO.BAR", "foo__bar"], ["a", "A"]]:
+        for x in fam:
+            add("fam.name", lambda x=x: [utils.canonicalize_name(x), utils.is_normalized_name(x), str(requirements.Requirement(x + "[E_x]>=1")),
+                                         hash(requirements.Requirement(x)) == hash(requirements.Requirement(fam[0]))])
+    for fam in [["os_name=='a'", "os.name == \"a\"", "(os_name == 'a')"], ["extra=='A_b'", "extra == 'a-b'", "'a.B' == extra"]]:
+        for x in fam:
+            add("fam.marker", lambda x=x: (lambda m: [str(m), m.evaluate({"os_name": "a", "extra": "A.b"}), hash(m) == hash(markers.Marker(x))])(markers.Marker(x)))
+    for x in ["py3-none-any", "PY3-NONE-ANY", "Py3-None-Any"]:
+        add("fam.tag", lambda x=x: [(str(t), t.interpreter, hash(t) == hash(tags.Tag("py3", "none", "any"))) for t in tags.parse_tag(x)])
     extras = ["b", "a", "C_d", "e.f"]
     for i in range(4):
         ex = rng.sample(extras, rng.randrange(0, 4))
